@@ -139,6 +139,13 @@ def ready_edge_of_await(fn, fut_call_bb):
     return None
 
 
+_CTX = {}
+
+
+def rep_ctx_time(core):
+    return _CTX.get('time')
+
+
 def upvar_names(fn, operand):
     out = set()
     for o in origins(fn, operand):
@@ -154,8 +161,9 @@ def check(ctx, rep):
     rep.rule('R04.b', '`then` hosts the second command only after the await of the first completed', floor=1)
     rep.rule('R04.c', 'and/all/then/from_iter host every sub-command on the parent\'s channels; no Command is dropped', floor=5)
     core = ctx.crate('default', 'crux_core')
-    if core is None:
-        rep.missing('R04.a', 'crux_core facts')
+    _CTX['time'] = ctx.crate('default', 'crux_time')
+    if core is None or _CTX['time'] is None:
+        rep.missing('R04.a', 'crux_core / crux_time facts')
         return
     # R04.a
     for name, own, other in (('map_effect', 'Effect', 'Event'), ('map_event', 'Event', 'Effect')):
@@ -256,5 +264,10 @@ def check(ctx, rep):
                    'Command::all does not spawn every item of its argument (iterator adapted or spawn outside the loop)')
     counts = c01.check_linear(rep, core, 'default', rid='R04.c', only=lambda f, ty: 'crux_core::command::Command<' in ty)
     check_builders(rep, core)
+    # R04.g: spawn/join/select inside a command rely on every crux-provided future keeping the waker of the current poll (shared with C05 R05.c)
+    from rules.props import c05
+    rep.rule('R04.g', 'every future crux provides to tasks (JoinHandle, shell requests and streams, timers) keeps the current poll\'s waker when it stays Pending', floor=5)
+    time = rep_ctx_time(core)
+    c05.check_pending_wakers(rep, 'R04.g', core, time)
     rep.assume('futures StreamExt::forward/map and CommandSink deliver every item exactly once in order (checked for CommandSink in C01)')
     rep.assume('NOT DECIDED: reference semantics, algebraic laws, then_request/then_stream chaining under every resolution order')
